@@ -59,6 +59,8 @@ def gen_prog(rng: random.Random, *, crash: float = 0.08) -> dict[str, Any]:
             if rng.random() < 0.2:
                 n_cb += 1
                 prog[-1]["pre_reg"] = 100 + n_cb        # registered by the task itself before task_status.started()
+                if rng.random() < 0.4 and not prog[-1]["from_nested"]:
+                    prog[-1]["cancel_at_start"] = True  # … and the caller's scope is cancelled as it reports started()
     if any(st["op"] == "start" and st["beh"].get("exc") is not None for st in prog):
         # once a task has crashed the rest is cancelled by the task group; what anyio does with the exception of a
         # task that is cancelled while it is still being started is outside the statement: no second source of
